@@ -114,7 +114,35 @@ func finish(run *PropRun) int {
 				}
 			}
 		}
-		outcomes, log, err := nativeReplay(pkg, files, validate...)
+		// findings of unbounded recursion kill the native process (a Go stack
+		// overflow is fatal): replay each in a process of its own
+		isolated := map[string]string{}
+		var batch []string
+		nIso := 0
+		for i, j := range jobs {
+			if j.rf.Kind == "panic" && strings.Contains(j.rf.Label, "unbounded recursion") {
+				nIso++
+				if nIso <= 2 {
+					_, ilog, ierr := nativeReplay(pkg, []string{files[i]})
+					if strings.Contains(ilog, "stack overflow") || strings.Contains(ilog, "goroutine stack exceeds") {
+						isolated[files[i]] = "panic:fatal error: stack overflow (unbounded recursion)"
+					} else if ierr != nil {
+						isolated[files[i]] = "abort:" + ierr.Error()
+					} else {
+						isolated[files[i]] = "pass"
+					}
+				}
+				continue
+			}
+			batch = append(batch, files[i])
+		}
+		outcomes, log, err := nativeReplay(pkg, batch, validate...)
+		if outcomes == nil {
+			outcomes = map[string]string{}
+		}
+		for f, oc := range isolated {
+			outcomes[f] = oc
+		}
 		for _, v := range validate {
 			line := outcomes["model:"+v]
 			modelValidation = append(modelValidation, v+": "+line)
